@@ -7,10 +7,10 @@ if ! git -C /repo diff --quiet; then echo "WARNING: /repo working tree is dirty"
 rc_all=0
 for pid in $(python3 -c "import json;print(' '.join(c['property_id'] for c in json.load(open('MANIFEST.json'))['checks']))"); do
   start=$(date +%s)
-  ./check $pid --tier $TIER > /tmp/run_all_$pid.log 2>&1; rc=$?
+  ./check $pid --tier $TIER > /tmp/run_all_$$_$pid.log 2>&1; rc=$?
   end=$(date +%s)
-  echo "$pid rc=$rc $((end-start))s :: $(grep -v 'WARNING conda' /tmp/run_all_$pid.log | grep -c '^VIOLATION') violation lines, $(grep -c '^KNOWN-FINDING' /tmp/run_all_$pid.log) known-finding lines :: $(grep -v 'WARNING conda' /tmp/run_all_$pid.log | tail -1)"
+  echo "$pid rc=$rc $((end-start))s :: $(grep -v 'WARNING conda' /tmp/run_all_$$_$pid.log | grep -c '^VIOLATION') violation lines, $(grep -c '^KNOWN-FINDING' /tmp/run_all_$$_$pid.log) known-finding lines :: $(grep -v 'WARNING conda' /tmp/run_all_$$_$pid.log | tail -1)"
   [ $rc -ne 0 ] && rc_all=1
-  rm -f /tmp/run_all_$pid.log
+  rm -f /tmp/run_all_$$_$pid.log
 done
 exit $rc_all
